@@ -43,7 +43,7 @@ MESSAGES = [
 ]
 
 
-def make_commit(r, parent, tree, ident, enc, msg):
+def make_commit(r, parent, tree, ident, enc, msg, raw_name=None):
     name, email, date = ident
     hdr = "tree %s\nparent %s\n" % (tree, parent)
     who = "%s <%s> %s" % (name, email, date)
@@ -54,6 +54,8 @@ def make_commit(r, parent, tree, ident, enc, msg):
         who_b = who.encode(codec)
     except UnicodeEncodeError:
         who_b = ("Fallback Name <fb@example.com> %s" % date).encode()
+    if raw_name is not None:
+        who_b = raw_name + (" <%s> %s" % (email, date)).encode()
     raw = hdr.encode() + b"author " + who_b + b"\n" + b"committer " + who_b + b"\n"
     if enc:
         raw += ("encoding %s\n" % enc).encode()
@@ -304,6 +306,31 @@ def raw_commit(r, oid):
     return enc, msg
 
 
+def raw_author_name(r, oid):
+    p = subprocess.run(["git", "cat-file", "commit", oid], cwd=r.path, capture_output=True, env=r.env())
+    for ln in p.stdout.split(b"\n\n")[0].split(b"\n"):
+        if ln.startswith(b"author "):
+            return ln[7:].rsplit(b" <", 1)[0]
+    return None
+
+
+def gen_name(rng, hk):
+    """an author name in the bytes of the commit's declared encoding"""
+    base = bytes(rng.choice(b"ABCDEFGHJKLM")) if False else bytes([rng.choice(b"ABCDEFGHJKLM")])
+    base += bytes(rng.choice(b"abcdefghijklmnop") for _ in range(rng.randint(2, 6)))
+    k = rng.random()
+    if k < 0.3:
+        return base
+    if hk in ("latin1", "w1252"):
+        extra = bytes([rng.randint(0xc0, 0xff)]) if k < 0.75 else bytes([rng.choice([0x8a, 0x9a, 0x80, 0x9f, 0x8c])])
+        return base + extra + b" " + base[::-1]
+    if k < 0.85:
+        return base + rng.choice(["\u00e9", "\u00d1", "\u00fc", "\u0161", "\u20ac", "\u540d", "\u0416"]).encode() + b" " + base[::-1]
+    if k < 0.93:
+        return base + "\U0001f63c".encode()
+    return base + rng.choice([b"\xff", b"\xc3", b"\xe2\x82"])          # not UTF-8
+
+
 def shown_text(r, oid):
     p = subprocess.run(["git", "log", "-1", "--encoding=UTF-8", "--format=%B", oid], cwd=r.path,
                        capture_output=True, env=r.env())
@@ -329,8 +356,10 @@ def recreate_correspondence(ctx, stg, exe, seed, nbatches, per_batch):
                 r.write("r%d.txt" % k, "content %d\n" % k)
                 r.git(["add", "-A"])
                 tree = r.git(["write-tree"]).stdout.strip()
-                parent = make_commit(r, parent, tree, IDENTITIES[0], label, msg)
-                cases.append({"header": hk, "label": label, "bytes": msg.hex(), "config": cfg, "commit": parent})
+                name = gen_name(rng, hk)
+                parent = make_commit(r, parent, tree, IDENTITIES[0], label, msg, raw_name=name)
+                cases.append({"header": hk, "label": label, "bytes": msg.hex(), "config": cfg, "commit": parent,
+                              "name_bytes": name.hex()})
             r.git(["reset", "-q", "--hard", parent])
             r.stg(stg, ["init"])
             p = r.stg(stg, ["uncommit", "-n", str(per_batch), "r"])
@@ -346,13 +375,27 @@ def recreate_correspondence(ctx, stg, exe, seed, nbatches, per_batch):
                 r.git(["config", "i18n.commitEncoding", CONFIG_LABELS[cfg]])
             reqs = [["recreate", c["header"], c["bytes"] or "-", c["config"]] for c in cases]
             model = funcorr.run_model(exe, "/dev/null", reqs)
+            nmodel = funcorr.run_model(exe, "/dev/null", [["recreatename", c["header"], c["name_bytes"], c["config"]]
+                                                          for c in cases])
+            for c, nm in zip(cases, nmodel):
+                c["name_model"] = nm
+                c["name_shown_before"] = subprocess.run(
+                    ["git", "log", "-1", "--encoding=UTF-8", "--format=%an", c["commit"]], cwd=r.path,
+                    capture_output=True, env=r.env()).stdout
             # push in reverse order: every patch lands on a parent it did not have
             for c, m in reversed(list(zip(cases, model))):
                 stats["cases"] += 1
                 stats["by_header"][c["header"]] = stats["by_header"].get(c["header"], 0) + 1
                 stats["by_config"][cfg] = stats["by_config"].get(cfg, 0) + 1
                 p = r.stg(stg, ["push", c["name"]])
-                desc = {k: c[k] for k in ("header", "label", "bytes", "config")}
+                desc = {k: c[k] for k in ("header", "label", "bytes", "config", "name_bytes")}
+                if c["name_model"] == "err" and m != "err":
+                    # the author cannot be decoded / encoded: the command refuses whatever the message is
+                    stats["refused"] += 1
+                    stats["name_refused"] = stats.get("name_refused", 0) + 1
+                    if p.returncode == 0:
+                        failures.append({**desc, "why": "the model refuses the re-creation (author name), stg push succeeded"})
+                    continue
                 if m == "err":
                     stats["refused"] += 1
                     if p.returncode == 0:
@@ -381,6 +424,37 @@ def recreate_correspondence(ctx, stg, exe, seed, nbatches, per_batch):
                     continue
                 if out != bytes.fromhex(c["bytes"]):
                     stats["bytes_changed"] += 1
+                # the author name: bytes as the model writes them, and what git shows
+                got_name = raw_author_name(r, oid)
+                want_name = bytes.fromhex(c["name_model"].split(" ")[1]) if c["name_model"].split(" ")[1] not in ("e", "-") else b""
+                stats["names_compared"] = stats.get("names_compared", 0) + 1
+                if got_name != want_name:
+                    failures.append({**desc, "why": "the author name of the re-created commit differs from the model",
+                                     "real": got_name.hex() if got_name is not None else None, "model": want_name.hex()})
+                    continue
+                shown = subprocess.run(["git", "log", "-1", "--encoding=UTF-8", "--format=%an", oid], cwd=r.path,
+                                       capture_output=True, env=r.env()).stdout
+                if shown != c["name_shown_before"]:
+                    nb = bytes.fromhex(c["name_bytes"])
+                    c1n = any(0x80 <= b <= 0x9f for b in nb)
+                    # (git re-encodes the whole commit: one byte iconv cannot decode, in the name or in the
+                    # message, and it shows everything raw)
+                    undefn = any(b in (0x81, 0x8d, 0x8f, 0x90, 0x9d) for b in nb + bytes.fromhex(c["bytes"]))
+                    if c["header"] == "latin1" and c1n:
+                        stats["name_changed_f40"] = stats.get("name_changed_f40", 0) + 1
+                        KNOWN_SEEN.add("F40")
+                    elif c["header"] in ("latin1", "w1252") and cfg in ("latin1", "w1252") and cfg != c["header"] and c1n:
+                        pass        # the other single-byte table was asked for
+                    elif c["header"] == "w1252" and undefn:
+                        pass        # git could not decode the name before
+                    elif cfg == "w1252" and any(b in (0x81, 0x8d, 0x8f, 0x90, 0x9d) for b in (got_name or b"") + out):
+                        pass        # the new commit carries a byte iconv's CP1252 lacks: git shows it raw
+                    elif cfg == "latin1" and any(0x80 <= b <= 0x9f for b in (got_name or b"")):
+                        pass        # i18n.commitEncoding=ISO-8859-1: encoding_rs writes windows-1252 bytes (F40's table)
+                    else:
+                        failures.append({**desc, "why": "the author name git shows changed by the re-creation",
+                                         "before": c["name_shown_before"].hex(), "after": shown.hex()})
+                        continue
                 # the shown text: git's decoding of the new commit against the model's git_text, and
                 # against the text shown before (the fidelity clause itself)
                 after = shown_text(r, oid)
